@@ -51,8 +51,8 @@ ASSUMPTIONS = {
 EXPECTED_PROBES = {
     'C06': ['interrupted_nonsquare_R', 'budget_inside_first_batch', 'conv_fired', 'maxvol_iteration_limit',
             'stop_m', 'stop_func', 'stop_cb', 'stop_e', 'stop_e_vld', 'stop_nswp', 'pre_iteration_stop',
-            'valueerror_rejected', 'long_run_over_100_sweeps', 'unreached_e_vld_twin'],
-    'C05': ['restart_all_from_cache_conv', 'reproduction_checked', 'transparency_bitwise', 'foreign_cache', 'unobserved_run',
+            'valueerror_rejected', 'long_run_over_100_sweeps', 'unreached_e_vld_twin', 'unobserved_interruption_twin'],
+    'C05': ['restart_all_from_cache_conv', 'reproduction_checked', 'transparency_bitwise', 'foreign_cache', 'unobserved_run', 'positional_call',
             'crash_none', 'crash_m', 'crash_cb', 'crash_raise', 'liveness_checked', 'reproduction_checked_at_interruption'],
 }
 BUDGET = {
@@ -276,7 +276,11 @@ def run_once(cfg, world, plan, cache=None, Y0=None, stop_args=None, keep_tensors
     o.failed = None
     try:
         with captured_stdout():
-            o.Y = teneva.cross(o.f, Y0, **kw)
+            if plan.get('positional'):
+                # a caller that passes everything by position, in the documented order
+                o.Y = teneva.cross(o.f, Y0, *[kw[k_] for k_ in POSITIONAL_ORDER], m_cache_scale=kw['m_cache_scale'], log=kw['log'])
+            else:
+                o.Y = teneva.cross(o.f, Y0, **kw)
     except SimAbort as e:
         o.abort = str(e)
     except ObjectiveFailure as e:   # the simulated crash of the objective: the exception propagates to the caller
@@ -286,6 +290,11 @@ def run_once(cfg, world, plan, cache=None, Y0=None, stop_args=None, keep_tensors
     o.sim_time = CLOCK.advanced
     o.y0_changed = [G.tobytes() for G in Y0] != Y0_bytes
     return o
+
+
+# the order of the arguments of cross after (f, Y0) in the signature of the pinned tree, up to the callback (then come `func`, for
+# "internal experiments", `m_cache_scale` and `log`, which are passed by keyword)
+POSITIONAL_ORDER = ['m', 'e', 'nswp', 'tau', 'dr_min', 'dr_max', 'tau0', 'k0', 'info', 'cache', 'I_vld', 'y_vld', 'e_vld', 'cb']
 
 
 def make_cache(cfg, content=None):
@@ -705,6 +714,33 @@ def execute_enumerate(scen):
     else:
         plans = plans_for(scen, tw, trace, pre_cache)
         runs += argcombo_runs(scen, world, V, stats)
+        # interruptions of a run that nobody watches and that has no convergence threshold (no callback, no e): the same tensor, the same
+        # counters and the same stop reason as the watched run interrupted at the same place
+        cu = dict(cfg, e=None, nswp=cfg.get('nswp') or 3, log=False)
+        g_u = gen(scen['combo_seed'] + 31)
+        ncalls = max(1, tw.f.calls)
+        for k_u in sorted(set(int(x) for x in g_u.integers(1, ncalls + 1, 4))) + [None]:
+            pl_w = {'none_at': k_u} if k_u is not None else {'m': max(1, int(tw.info.get('m', 2)) // 2)}
+            ow = run_once(cu, world, dict(pl_w, m=pl_w.get('m')), keep_tensors=False)
+            ou = run_once(cu, world, dict(pl_w, m=pl_w.get('m'), no_cb=True), keep_tensors=False)
+            runs += 2
+            stats['probe.unobserved_interruption_twin'] = stats.get('probe.unobserved_interruption_twin', 0) + 1
+            tag_u = 'unwatched run (no callback, no e) interrupted by %s' % cjson(pl_w)
+            if ow.Y is None:
+                continue          # the watched run is judged by the enumeration below
+            if ou.Y is None:
+                V.append(viol('C06', 'exception', '%s raised %r %r; the watched run returns normally' % (tag_u, ou.exc, ou.abort), dict(pl_w, no_cb=True)))
+                break
+            why_u = wellformed_tt(ou.Y, n)
+            if why_u:
+                V.append(viol('C06', 'wellformed', '%s: %s' % (tag_u, why_u), dict(pl_w, no_cb=True)))
+                break
+            ka = {k: repr(v) for k, v in ow.info.items() if k != 't'}
+            kb = {k: repr(v) for k, v in ou.info.items() if k != 't'}
+            if [G.tobytes() for G in ou.Y] != [G.tobytes() for G in ow.Y] or ka != kb:
+                V.append(viol('C06', 'transparency-callback', '%s differs from the watched run: %s' % (tag_u, sorted((k, ka.get(k), kb.get(k)) for k in set(ka) | set(kb) if ka.get(k) != kb.get(k))[:4] or 'other tensor'),
+                              dict(pl_w, no_cb=True)))
+                break
     nontrivial = 0
     P = lambda k: stats.__setitem__('probe.' + k, stats.get('probe.' + k, 0) + 1)
     Fk = lambda k: stats.__setitem__('fault.' + k, stats.get('fault.' + k, 0) + 1)
@@ -870,6 +906,22 @@ def execute_incarnations(scen):
             if ia != ib:
                 V.append(viol(prop, 'transparency-callback', 'info of the run without a sweep callback differs from the watched run: %s'
                               % sorted((k, ia.get(k), ib.get(k)) for k in set(ia) | set(ib) if ia.get(k) != ib.get(k))[:4]))
+        if V:
+            return {'violations': V, 'runs': runs, 'stats': stats, 'digest': dig('x'), 'nontrivial': 0, 'sim_time': 0.0}
+    if True:
+        # the same call with every argument passed by position (documented order): same tensor, same progress record
+        po = run_once(cfg, world, {'positional': True})
+        runs += 1
+        P('positional_call')
+        if po.Y is None or tw.Y is None:
+            if (po.Y is None) != (tw.Y is None):
+                V.append(viol(prop, 'transparency-positional', 'the call with all arguments passed by position (documented order) fails: %r %r' % (po.exc, po.abort)))
+        else:
+            ia = {k: repr(v) for k, v in tw.info.items() if k != 't'}
+            ib = {k: repr(v) for k, v in po.info.items() if k != 't'}
+            if [G.tobytes() for G in po.Y] != [G.tobytes() for G in tw.Y] or ia != ib:
+                V.append(viol(prop, 'transparency-positional', 'the call with all arguments passed by position (documented order) differs from the keyword call: %s'
+                              % (sorted((k, ia.get(k), ib.get(k)) for k in set(ia) | set(ib) if ia.get(k) != ib.get(k))[:4] or 'other tensor')))
         if V:
             return {'violations': V, 'runs': runs, 'stats': stats, 'digest': dig('x'), 'nontrivial': 0, 'sim_time': 0.0}
     # initial durable state
